@@ -52,7 +52,7 @@ struct Case {
     desc: bool,
     nf: bool,
     keys: Vec<Option<i64>>,
-    ops: Vec<Op>,
+    streaming: bool,
 }
 
 fn bound_json(b: B) -> String {
@@ -224,32 +224,6 @@ fn gen_bounds(rng: &mut Rng, u: U, huge: bool) -> (B, B) {
     }
 }
 
-/// the executors' calling patterns
-fn gen_ops(rng: &mut Rng, n: usize, streaming: bool, u: U) -> Vec<Op> {
-    let mut ops = vec![];
-    if !streaming {
-        for i in 0..n { ops.push(Op::Call { len: n, idx: i, acc: true }); }
-        return ops;
-    }
-    // streaming: the buffer grows in pieces; a row may be asked again (acc = false) before more rows arrive; prunes
-    let mut len = 0usize;
-    let mut idx = 0usize;
-    while idx < n {
-        if len <= idx || (len < n && rng.chance(1, 3)) {
-            len = (len + 1 + rng.below(3) as usize).min(n);
-            continue;
-        }
-        let acc = len == n || rng.chance(3, 4);
-        ops.push(Op::Call { len, idx, acc });
-        if acc { idx += 1; }
-        if rng.chance(1, 3) {
-            ops.push(Op::Prune(usize::MAX)); // resolved while running: a random n <= min(last_range.start, idx)
-        }
-    }
-    let _ = u;
-    ops
-}
-
 // ------------------------------------------------------------------ running the implementation
 enum Obs {
     R(usize, usize),
@@ -258,84 +232,98 @@ enum Obs {
     Pruned(usize),
 }
 
+fn panic_msg(p: Box<dyn std::any::Any + Send>) -> String {
+    p.downcast_ref::<String>().cloned().or_else(|| p.downcast_ref::<&str>().map(|s| s.to_string())).unwrap_or_default()
+}
+
+/// Drives the real WindowFrameContext with the executors' protocol and records the operations performed.
+///   whole partition (WindowAggExec / aggregate_evaluate): len = n, rows 0..n in order, every result accepted;
+///   streaming (BoundedWindowAggExec / get_result_column): rows arrive in pieces; for every arrival
+///     `while idx < len { r = calculate_range(.., len, idx); if r.end == len && !causal && not_end { break } accept }`
+///     (is_end_bound_safe taken as false), then possibly prune_state(n) with n <= min(frame start, rows calculated).
 fn run_case(c: &Case, rng: &mut Rng) -> (Vec<Obs>, Vec<Op>, bool, String) {
     let frame = Arc::new(WindowFrame::new_bounds(
         match c.units { U::Rows => WindowFrameUnits::Rows, U::Range => WindowFrameUnits::Range, U::Groups => WindowFrameUnits::Groups },
         to_bound(c.sb, c.units),
         to_bound(c.eb, c.units),
     ));
+    let causal = frame.is_causal();
     let so = vec![SortOptions { descending: c.desc, nulls_first: c.nf }];
     let mut st = WindowAggState::new(&DataType::Int64).unwrap();
     st.window_frame_ctx = Some(WindowFrameContext::new(frame, so));
+    let n = c.keys.len();
     let mut off = 0usize; // rows pruned so far
     let mut obs = vec![];
-    let mut ops_done = vec![];
+    let mut ops = vec![];
     let mut ok = true;
     let mut why = String::new();
-    for op in &c.ops {
-        match op {
-            Op::Call { len, idx, acc } => {
-                let col: ArrayRef = Arc::new(Int64Array::from(c.keys[off..*len].to_vec()));
-                let cols = vec![col];
-                let last = st.window_frame_range.clone();
-                let (rl, ri) = (*len - off, *idx - off);
-                let r = catch_unwind(AssertUnwindSafe(|| {
-                    st.window_frame_ctx.as_mut().unwrap().calculate_range(&cols, &last, rl, ri)
-                }));
-                ops_done.push(op.clone());
-                match r {
-                    Ok(Ok(Range { start, end })) => {
-                        obs.push(Obs::R(start, end));
-                        let want = frame_def(c, *len, *idx);
-                        let got: Vec<usize> = (start + off..(end + off).max(start + off)).collect();
-                        if end > rl || got != want {
-                            if ok { why = format!("call len={len} idx={idx}: frame rows {:?}, definition {:?}", (start + off, end + off), want); }
-                            ok = false;
-                        }
-                        if *acc {
-                            st.window_frame_range = Range { start, end };
-                            st.last_calculated_index = ri + 1;
-                        }
-                    }
-                    Ok(Err(e)) => {
-                        obs.push(Obs::Err(e.to_string()));
-                        if ok { why = format!("call len={len} idx={idx}: error {e}"); }
+    let mut len = if c.streaming { 0 } else { n };
+    let mut idx = 0usize;
+    'outer: while idx < n {
+        if c.streaming {
+            len = (len.max(idx) + 1 + rng.below(3) as usize).min(n);
+        }
+        while idx < len {
+            let col: ArrayRef = Arc::new(Int64Array::from(c.keys[off..len].to_vec()));
+            let cols = vec![col];
+            let last = st.window_frame_range.clone();
+            let (rl, ri) = (len - off, idx - off);
+            let r = catch_unwind(AssertUnwindSafe(|| st.window_frame_ctx.as_mut().unwrap().calculate_range(&cols, &last, rl, ri)));
+            match r {
+                Ok(Ok(Range { start, end })) => {
+                    obs.push(Obs::R(start, end));
+                    let want = frame_def(c, len, idx);
+                    let got: Vec<usize> = (start + off..(end + off).max(start + off)).collect();
+                    if end > rl || got != want {
+                        if ok { why = format!("call len={len} idx={idx}: frame rows {:?}, definition {:?}", (start + off, end + off), want); }
                         ok = false;
-                        break;
                     }
-                    Err(p) => {
-                        let m = p.downcast_ref::<String>().cloned().or_else(|| p.downcast_ref::<&str>().map(|s| s.to_string())).unwrap_or_default();
-                        obs.push(Obs::Panic(m.clone()));
-                        if ok { why = format!("call len={len} idx={idx}: panic {m}"); }
-                        ok = false;
-                        break;
-                    }
+                    let acc = !(end == rl && !causal && len < n);
+                    ops.push(Op::Call { len, idx, acc });
+                    if !acc { break; }
+                    st.window_frame_range = Range { start, end };
+                    st.last_calculated_index = ri + 1;
+                    idx += 1;
+                }
+                Ok(Err(e)) => {
+                    ops.push(Op::Call { len, idx, acc: true });
+                    obs.push(Obs::Err(e.to_string()));
+                    if ok { why = format!("call len={len} idx={idx}: error {e}"); }
+                    ok = false;
+                    break 'outer;
+                }
+                Err(p) => {
+                    let m = panic_msg(p);
+                    ops.push(Op::Call { len, idx, acc: true });
+                    obs.push(Obs::Panic(m.clone()));
+                    if ok { why = format!("call len={len} idx={idx}: panic {m}"); }
+                    ok = false;
+                    break 'outer;
                 }
             }
-            Op::Prune(_) => {
-                let lim = st.window_frame_range.start.min(st.last_calculated_index);
-                if lim == 0 { continue; }
-                let n = 1 + rng.below(lim as u64) as usize;
-                let n = if rng.chance(1, 2) { lim } else { n };
-                let r = catch_unwind(AssertUnwindSafe(|| st.prune_state(n)));
-                ops_done.push(Op::Prune(n));
-                match r {
-                    Ok(()) => {
-                        off += n;
-                        obs.push(Obs::Pruned(n));
-                    }
-                    Err(p) => {
-                        let m = p.downcast_ref::<String>().cloned().or_else(|| p.downcast_ref::<&str>().map(|s| s.to_string())).unwrap_or_default();
-                        obs.push(Obs::Panic(m.clone()));
-                        if ok { why = format!("prune_state({n}): panic {m}"); }
-                        ok = false;
-                        break;
-                    }
+        }
+        if c.streaming && len < n && rng.chance(1, 2) {
+            let lim = st.window_frame_range.start.min(st.last_calculated_index);
+            if lim == 0 { continue; }
+            let k = if rng.chance(2, 3) { lim } else { 1 + rng.below(lim as u64) as usize };
+            let r = catch_unwind(AssertUnwindSafe(|| st.prune_state(k)));
+            ops.push(Op::Prune(k));
+            match r {
+                Ok(()) => {
+                    off += k;
+                    obs.push(Obs::Pruned(k));
+                }
+                Err(p) => {
+                    let m = panic_msg(p);
+                    obs.push(Obs::Panic(m.clone()));
+                    if ok { why = format!("prune_state({k}): panic {m}"); }
+                    ok = false;
+                    break 'outer;
                 }
             }
         }
     }
-    (obs, ops_done, ok, why)
+    (obs, ops, ok, why)
 }
 
 fn emit(id: usize, c: &Case, rng: &mut Rng) {
@@ -368,7 +356,8 @@ fn emit(id: usize, c: &Case, rng: &mut Rng) {
         "frame"
     };
     println!(
-        "{{\"k\":\"dir\",\"id\":{id},\"units\":\"{}\",\"sb\":{},\"eb\":{},\"desc\":{},\"nf\":{},\"keys\":{},\"ops\":[{}],\"out\":[{}],\"ok\":{ok},\"cls\":\"{cls}\",\"why\":{}}}",
+        "{{\"k\":\"dir\",\"id\":{id},\"streaming\":{},\"units\":\"{}\",\"sb\":{},\"eb\":{},\"desc\":{},\"nf\":{},\"keys\":{},\"ops\":[{}],\"out\":[{}],\"ok\":{ok},\"cls\":\"{cls}\",\"why\":{}}}",
+        c.streaming,
         units_str(c.units),
         bound_json(c.sb),
         bound_json(c.eb),
@@ -382,17 +371,16 @@ fn emit(id: usize, c: &Case, rng: &mut Rng) {
 }
 
 fn fixed_cases() -> Vec<Case> {
-    let seq = |n: usize| (0..n).map(|i| Op::Call { len: n, idx: i, acc: true }).collect::<Vec<_>>();
-    vec![
+        vec![
         // witnesses of the known findings (run first on every run)
         // W1: ROWS n FOLLOWING with idx + n + 1 >= 2^64
-        Case { units: U::Rows, sb: B::CR, eb: B::F(u64::MAX), desc: false, nf: false, keys: vec![Some(1), Some(2), Some(3)], ops: seq(3) },
+        Case { units: U::Rows, sb: B::CR, eb: B::F(u64::MAX), desc: false, nf: false, keys: vec![Some(1), Some(2), Some(3)], streaming: false },
         // W2: RANGE target overflow next to the NULL group
-        Case { units: U::Range, sb: B::P(5), eb: B::CR, desc: false, nf: true, keys: vec![None, None, Some(i64::MIN + 1), Some(i64::MIN + 3)], ops: seq(4) },
-        Case { units: U::Range, sb: B::F(1), eb: B::F(2), desc: false, nf: false, keys: vec![Some(i64::MAX), None], ops: seq(2) },
+        Case { units: U::Range, sb: B::P(5), eb: B::CR, desc: false, nf: true, keys: vec![None, None, Some(i64::MIN + 1), Some(i64::MIN + 3)], streaming: false },
+        Case { units: U::Range, sb: B::F(1), eb: B::F(2), desc: false, nf: false, keys: vec![Some(i64::MAX), None], streaming: false },
         // plain
-        Case { units: U::Groups, sb: B::P(1), eb: B::F(1), desc: false, nf: false, keys: vec![Some(5), Some(7), Some(8), Some(8), Some(9), Some(10), Some(10), Some(10), Some(11)], ops: seq(9) },
-        Case { units: U::Range, sb: B::P(1), eb: B::F(1), desc: true, nf: true, keys: vec![None, Some(9), Some(8), Some(8), Some(6), Some(5)], ops: seq(6) },
+        Case { units: U::Groups, sb: B::P(1), eb: B::F(1), desc: false, nf: false, keys: vec![Some(5), Some(7), Some(8), Some(8), Some(9), Some(10), Some(10), Some(10), Some(11)], streaming: false },
+        Case { units: U::Range, sb: B::P(1), eb: B::F(1), desc: true, nf: true, keys: vec![None, Some(9), Some(8), Some(8), Some(6), Some(5)], streaming: false },
     ]
 }
 
@@ -420,10 +408,8 @@ fn main() {
                     if nf { keys.extend([None, None]); }
                     keys.extend(vals.into_iter().map(Some));
                     if !nf { keys.extend([None, None]); }
-                    let n = keys.len();
                     let streaming = (id % 2) == 1;
-                    let ops = gen_ops(&mut rng, n, streaming, u);
-                    emit(id, &Case { units: u, sb, eb, desc, nf, keys, ops }, &mut rng);
+                    emit(id, &Case { units: u, sb, eb, desc, nf, keys, streaming }, &mut rng);
                     id += 1;
                 }
             }
@@ -438,8 +424,7 @@ fn main() {
         let nf = rng.chance(1, 2);
         let keys = gen_keys(&mut rng, desc, nf, extreme);
         let streaming = rng.chance(1, 2);
-        let ops = gen_ops(&mut rng, keys.len(), streaming, u);
-        emit(id, &Case { units: u, sb, eb, desc, nf, keys, ops }, &mut rng);
+        emit(id, &Case { units: u, sb, eb, desc, nf, keys, streaming }, &mut rng);
         id += 1;
     }
 }
